@@ -217,7 +217,7 @@ const RealRuntime = true
 
 func Run(cfg Config, mainFn func()) *Sim {
 	if cfg.WallLimit == 0 {
-		cfg.WallLimit = 120 * time.Second
+		cfg.WallLimit = 20 * time.Second
 	}
 	s := &Sim{cfg: cfg, start: time.Now(), verdict: VOK}
 	S = s
